@@ -5,6 +5,7 @@ import (
 	"bufio"
 	"bytes"
 	"context"
+	"encoding/base64"
 	"fmt"
 	"io"
 	"math"
@@ -478,7 +479,7 @@ func CheckCancel(c CCase) (vs []evid.Violation, verified bool) {
 		half := gz[:len(gz)*c.MsgsFirst/4]
 		fmt.Fprintf(conn, "%x\r\n%s\r\n", len(half), half)
 		doCancel = func() { conn.Close() }
-	case "http1", "grpcweb1":
+	case "http1", "grpcweb1", "grpcwebtext1":
 		conn, err := net.Dial("tcp", real.Addr)
 		if err != nil {
 			return fail("setup", "dial", "dial: %v", err)
@@ -498,6 +499,11 @@ func CheckCancel(c CCase) (vs []evid.Violation, verified bool) {
 		} else {
 			ct = "application/grpc-web+proto"
 			one = drive.GRPCFrame(nil, false)
+			if c.Transport == "grpcwebtext1" {
+				// the base64 framing; a 9-byte frame so that every chunk is a whole number of base64 quanta
+				ct = "application/grpc-web-text+proto"
+				one = []byte(base64.StdEncoding.EncodeToString(drive.GRPCFrame([]byte{0x18, 0x01, 0x18, 0x01}, false)))
+			}
 			path = method
 			if c.Point == "recv-blocked" || c.Point == "before-first" {
 				path = "/un.C15/ClientS"
@@ -589,7 +595,7 @@ func CheckCancel(c CCase) (vs []evid.Violation, verified bool) {
 func TestPropCancel(t *testing.T) {
 	rapid.Check(t, func(t *rapid.T) {
 		c := CCase{
-			Transport: rapid.SampledFrom([]string{"grpc", "grpc", "http1", "grpcweb1", "http1gz"}).Draw(t, "transport"),
+			Transport: rapid.SampledFrom([]string{"grpc", "grpc", "http1", "grpcweb1", "grpcwebtext1", "http1gz"}).Draw(t, "transport"),
 			Point:     rapid.SampledFrom([]string{"recv-blocked", "send-blocked", "between", "before-first"}).Draw(t, "point"),
 			MsgsFirst: rapid.IntRange(1, 3).Draw(t, "msgsFirst"),
 		}
